@@ -17,6 +17,8 @@ CLAIMED = {
  "C13": ("CellBytes for VARCHAR/VAR_STRING/STRING/TINY..LONG BLOB/GEOMETRY with symbolic metadata (decides 1..4 prefix bytes), symbolic prefix and payload in buffers of 40 and 300 bytes (thorough 1200): value is non-nil, has exactly the logged length and its i-th byte is the logged byte for a universally quantified index i; consumed = prefix+length; cellLength agrees", "DESIGN.md 3/C13"),
  "C15": ("binlogEvent.TableMap/TableID on events from an independent writer: names (0..255 bytes), flags, 4/6-byte table ids, 1-2 (thorough 3) columns over ALL pairs of the 31 supported types with symbolic metadata bytes (byte order per type), nullability bits, trailing optional-metadata bytes, and 250/251/252 (thorough 300/600) columns with multi-byte column counts. Attribution/caching in parseEvents is covered by the event-model harness (see C02/C04 family) when claimed", "DESIGN.md 3/C15"),
  "C16": ("header accessors and Format/Rotate/Query/IntVar/Rand on events from an independent writer with every field symbolic: format description (server version 0/5/50 bytes, header-size tables of 27/38 (thorough 165/255) entries, checksum byte, version!=4 and header length<19 rejected), rotate (64-bit position, names 0..16 bytes), query (all MySQL-order subsets of status variables 0,1,6|2,3,4,5,7,8..20 with arbitrary payloads, db 0/3 (thorough ..255) bytes, SQL 0/5 (thorough 70000) bytes, charset iff Q_CHARSET_CODE), intvar/rand; each for checksum off / CRC32 (4 arbitrary trailing bytes) / undefined and for both flavors' StripChecksum", "DESIGN.md 3/C16"),
+ "C18": ("Mysql56GTIDSet.AddGTID/ContainsGTID/Contains/Equal from ARBITRARY canonical pre-states: interval lists of length 0..3 (thorough 0..5) with symbolic 63-bit bounds under the canonical-form invariant, 1-3 SIDs, both map iteration orders; AddGTID result proved equal to the union for a universally quantified probe element, canonical again, original map and slices unchanged; Contains/Equal proved equal to a finite interval characterisation which is itself linked to the element-wise meaning by solver lemmas; plus sequences of 2-3 (thorough 5) AddGTID from the empty set", "DESIGN.md 3/C18"),
+ "C19": ("round trips String()->parser and EncodeGTID->DecodeGTID for ALL 16-byte SIDs and sequence numbers 1..2^63-1 (MySQL 5.6) and all domain/server/sequence values (MariaDB; one field full-range per root), text and SID-block round trips of 5.6 sets (<=2x2 intervals quick, 3x3 thorough; text bounds <1000, block bounds full range), GTID / PREVIOUS_GTIDS / MariaDB GTID events from an independent writer, MariaDB set AddGTID (one position per domain, larger sequence wins, receiver's visible elements unchanged) and ContainsGTID/Contains for sets of 0..3 members with symbolic members", "DESIGN.md 3/C19"),
  "C17": ("IsValid <=> len>=19 && length field == len, and all header accessors agree with the header bytes, for every byte string of each length 0..64 (thorough 0..300): every byte is a solver variable, every obligation is an unsat query", "DESIGN.md 3/C17"),
 }
 NA_DEFAULT = "not yet reached by the encoder (build in progress)"
